@@ -5,7 +5,7 @@ TLC: Determinism.tla -- Functional (and Covered) for two processes with differen
      the pinned merge rule (set iteration) must be REJECTED by TLC on every run.
 V:   the TLC-enumerated inputs (plus classes, emitters on gamma-interfaces with inferred imports, mock docstrings) are
      executed in fresh interpreter processes with different PYTHONHASHSEEDs and different call orders (natural,
-     reversed, every call twice); the verdict is equality of the output hash per (api, input); the merged events are
+     reversed, every call twice, shuffled), some of them on ONE parsed object the process keeps; the verdict is equality of the output hash per (api, input); the merged events are
      validated by TLC against TraceDeterminism.tla.
 """
 
@@ -61,7 +61,7 @@ def _check(run, replay, work):
     quick = run.tier == "quick"
     run.rule = ("observation = (api, input) executed in a fresh interpreter with a given PYTHONHASHSEED and call order; inputs: "
                 "TLC-enumerated partially documented functions/classes, emitters+inferred imports on 4 interfaces x 11 formats, "
-                "mock docstrings; distinct = distinct (api, input); all observations of one (api, input) must hash equal")
+                "mock docstrings, 4 source objects x 8 targets converted from one object kept for the life of the process and from fresh copies; distinct = distinct (api, input); all observations of one (api, input) must hash equal")
     # ---------------- TLC ----------------
     n = 3 if quick else 4
     r = run.tlc("Determinism", "MC_Determinism.cfg", constants={"MaxSig": 3, "MaxCalls": 2}, timeout=3000)
@@ -73,6 +73,9 @@ def _check(run, replay, work):
     rp = run.tlc("Determinism", "MC_Determinism_pinned_scan.cfg", expect_ok=False, timeout=600)
     if rp.violated != "Functional":
         raise MachineryError("Determinism.tla does not reject the set-ordered phrase scan (vacuous Functional?)")
+    rp = run.tlc("Determinism", "MC_Determinism_aliased.cfg", expect_ok=False, timeout=600)
+    if rp.violated != "Functional":
+        raise MachineryError("Determinism.tla does not reject an IR that shares the body with the caller's object (vacuous Functional?)")
     run.extra["pinned_merge_rejected_by_tlc"] = True
     # the inputs: enumerate with a dump run (single worker so that lines stay intact)
     spec_inputs = _enumerate_inputs(run, n)
@@ -93,6 +96,14 @@ def _check(run, replay, work):
     for k, i in enumerate(IFACES):
         for fmt in EMIT:
             jobs.append({"api": "emit." + fmt, "id": "i{}".format(k), "input": {"i": i, "salt": k}})
+    # conversions of ONE parsed object the caller keeps for the life of the process (Determinism!CallShared), next to conversions of a
+    # freshly parsed copy of the same text: all are observations of the same (api, input)
+    from harness import det_worker
+
+    for src in sorted(det_worker.SOURCES):
+        for tgt in det_worker.TARGETS:
+            for shared in (False, True):
+                jobs.append({"api": "conv." + tgt, "id": "k:" + src, "input": {"src": src, "shared": shared}})
     # mock docstrings of the repository
     try:
         import ast as _ast
@@ -118,6 +129,7 @@ def _check(run, replay, work):
         for o in (("natural", "twice") if quick else orders):
             tasks.append((s, o, orders[o], work))
     tasks.append((seeds[1], "reversed", orders["reversed"], work))
+    tasks.append((seeds[2], "shuffled", orders["shuffled"], work))
     with ThreadPoolExecutor(max_workers=NCPU) as ex:
         results = list(ex.map(run_worker, tasks))
     events = []
